@@ -588,7 +588,43 @@ def run_history(case, ctx):
     ctx.nontrivial((len(case["ops"]) >= 6 and len(used) >= 4 and n_repeat >= 1 and n_swap >= 1) or n_sandwich >= 1)
 
 
+@st.composite
+def s_mgh_seeded(draw):
+    return {"g": draw(G.connected_graph(8, 18)), "h": draw(G.connected_graph(8, 18)), "seed": draw(st.integers(0, 2 ** 32 - 1)),
+            "fmt": draw(st.sampled_from(G.FORMATS)), "collection": draw(st.booleans())}
+
+
+def check_mgh_seeded(case, ctx):
+    """the one randomised routine on graphs large enough for the random choices of the upper-bound heuristic to matter: under a fixed
+    NumPy seed the result is the same every time, whatever was drawn from the global generator in between"""
+    g, h = case["g"], case["h"]
+    A, B = G.adjacency(g, case["fmt"], True), G.adjacency(h, "dense", False)
+    snaps = [snapshot(A), snapshot(B)]
+    outs = []
+    for k in range(4):
+        np.random.seed(case["seed"])
+        if k == 2:
+            np.random.random(7)          # other use of the global generator before the seed is set again has no influence
+            np.random.seed(case["seed"])
+        res = ctx.call(gromov_hausdorff, [A, B, A]) if case["collection"] else ctx.call(gromov_hausdorff, A, B)
+        outs.append(digest(res))
+    ctx.label("n=%d,%d" % (g["n"], h["n"]), "collection" if case["collection"] else "pair")
+    ctx.nontrivial(g["n"] >= 10 and h["n"] >= 10)
+    ctx.require(all(o == outs[0] for o in outs), "not_repeatable",
+                lambda: "gromov_hausdorff under np.random.seed(%d) returned different results in 4 calls on graphs with %d and %d vertices" % (case["seed"], g["n"], h["n"]))
+    ctx.require([snapshot(A), snapshot(B)] == snaps, "argument_modified", "gromov_hausdorff modified an adjacency matrix")
+    # a different seed may give a different (still valid) upper bound, never a different lower bound
+    np.random.seed((case["seed"] + 1) % 2 ** 32)
+    res2 = ctx.call(gromov_hausdorff, A, B)
+    np.random.seed(case["seed"])
+    res1 = ctx.call(gromov_hausdorff, A, B)
+    ctx.require(float(res1[0]) == float(res2[0]), "lower_bound_depends_on_seed", lambda: "lower bounds %r and %r under two seeds" % (res1[0], res2[0]))
+    ctx.label("ub_depends_on_seed" if float(res1[1]) != float(res2[1]) else None)
+
+
 def VALID_DEFAULT(case):
+    if "fmt" in case and "g" in case:
+        return G.valid_graph(case["g"]) and G.valid_graph(case["h"]) and case["fmt"] in G.FORMATS
     try:
         if len(case["dgms"]) < 2 or len(case["graphs"]) != 2:
             return False
@@ -620,6 +656,9 @@ CLAUSES = [
                 "one repeat and one representation swap) or a rejected call sandwiched between two valid ones"),
     Clause("rejected_calls", history(8, rejected_weight=12), run_history, quick=960, thorough=12000,
            rule="as history with 3..8 steps of which about half are calls on INVALID input sandwiched between two identical valid calls of the same entry point"),
+    Clause("mgh_seeded", s_mgh_seeded(), check_mgh_seeded, quick=800, thorough=8000,
+           rule="gromov_hausdorff (pair and collection call) on graphs with 8..18 vertices, four calls under the same np.random.seed with other draws from "
+                "the global generator in between: bit-identical results, arguments untouched; lower bound independent of the seed; non-trivial = both graphs >= 10 vertices"),
     Clause("long_history", history(40), run_history, quick=64, thorough=1600,
            rule="as history with up to 40 steps"),
 ]
